@@ -356,6 +356,24 @@ fn fail_fast_tripped(a: &Analysis<'_>) -> bool {
 // C05 — retries
 
 pub fn c05(a: &Analysis<'_>, out: &mut Vec<Violation>) {
+    if a.h.end == crate::core::RunEnd::Panicked {
+        // A panic that escapes the runner is a failure of user code that was never turned into a
+        // failed attempt, so it cannot be retried either. Attributed only when every attempt the
+        // panic cut short still had retries left (whichever of them ran the panicking code).
+        let cut: Vec<&crate::model::Attempt> = a.attempts.iter().filter(|t| t.started.is_some() && t.finished.is_none()).collect();
+        if !cut.is_empty() && cut.iter().all(|t| t.left() > 0) {
+            out.push(v(
+                "C05",
+                "retry-lost-to-escaped-panic",
+                format!(
+                    "a panic escaped the runner ({:?}) while {:?} were in progress, all with retries left: the failed attempt is never retried",
+                    a.h.escaped_panic,
+                    cut.iter().map(|t| (&t.scenario, t.retries)).collect::<Vec<_>>()
+                ),
+            ));
+        }
+        return;
+    }
     if !a.complete() {
         return;
     }
@@ -767,6 +785,22 @@ pub fn c08(a: &Analysis<'_>, out: &mut Vec<Violation>) {
             if late.len() > l.saturating_sub(1) {
                 out.push(v("C08", "too-many-after-failure", format!("{} attempts started after the final failure at {p}, limit {l}", late.len())));
             }
+        }
+        // Exact form of "only attempts dispatched together with the failing one may still begin",
+        // on the dispatch probe (hook H5): the runner hands no attempt to its executor once the
+        // failing attempt's Finished event exists (that event is created before the completion
+        // notice the dispatch loop trips on, and the loop does not run in between).
+        let t_fail = evs[p].at;
+        let after: Vec<&u64> = a.h.dispatch_times.iter().filter(|t| **t > t_fail).collect();
+        if !after.is_empty() {
+            out.push(
+                v(
+                    "C08",
+                    "dispatched-after-final-failure",
+                    format!("the final failure's Finished event (#{p}) was created at t={t_fail}; {} attempt(s) were handed to the executor afterwards (t={:?})", after.len(), after.iter().take(4).collect::<Vec<_>>()),
+                )
+                .attr("n", after.len().min(3)),
+            );
         }
     }
     // a retried failure must not stop dispatch: handled by C04-style completeness when nothing failed finally
